@@ -244,8 +244,12 @@ def acyclicity_core(rep, prog):
     empty_forms = []
     for ln_ in (("ext", "len", (A_,), ()), ("sub", ("attr", A_, "shape"), ("const", 0)), ("attr", A_, "size")):
         empty_forms += [npred(("cmp", "==", ln_, ("const", 0)), True), npred(("cmp", "<", ln_, ("const", 1)), True), npred(("cmp", "<=", ln_, ("const", 0)), True)]
+    def after_loop(r):
+        # reached through the work-list loop: its path (or its value) mentions a loop result
+        return any(isinstance(x, tuple) and x and x[0] == "after" for c, _ in r.path for x in walk(c)) or \
+            any(isinstance(x, tuple) and x and x[0] == "after" for x in walk(r.value))
     for r in rets:
-        if getattr(r.node, "lineno", 10**9) < first_loop:
+        if not after_loop(r):
             conds = [npred(strip_conv(c), pol) for c, pol in r.path]
             if any(c in empty_forms for c in conds):
                 rep.ok("TOPO.fast-path", fwhere(f, r.node), "early return for the graph without nodes only")
